@@ -49,6 +49,8 @@ def deme_ops(pops):
 
 
 def run(res, replay=None):
+    # structural tie of the configuration classes incl. class Epoch (its copies, zero-filled rates, __eq__ / __hash__): translate the CURRENT source and re-check proofs/GenConfigsEquiv.v
+    import translate_step; (res.proof is not None) and translate_step.run(res.proof, pid=res.pid, tie='configs')
     # structural tie of the cache machine of the state space (update_epoch, drop_S, drop_cache, S, _get_rate_matrix, states): translate the CURRENT source and re-check proofs/GenCacheEquiv.v
     import translate_step; (res.proof is not None) and translate_step.run(res.proof, pid=res.pid, tie='cache')
     rng = random.Random(res.seed)
